@@ -164,9 +164,10 @@ struct Arena {
 };
 
 // ---------------------------------------------------------------- fault recovery
-static sigjmp_buf g_env;
-static volatile sig_atomic_t g_armed = 0;
-static FaultInfo *g_fi = nullptr;
+// per thread: C18 runs guarded calls on several OS threads at once (a fault is delivered to the faulting thread)
+static thread_local sigjmp_buf g_env;
+static thread_local volatile sig_atomic_t g_armed = 0;
+static thread_local FaultInfo *g_fi = nullptr;
 
 static void on_fault(int sig, siginfo_t *si, void *uc_)
 {
@@ -190,15 +191,19 @@ static void on_fault(int sig, siginfo_t *si, void *uc_)
 
 static inline void install_handlers()
 {
+        static thread_local bool alt_done = false;
+        if (!alt_done) {
+                alt_done = true;
+                uint8_t *alt = (uint8_t *) mmap(nullptr, 1 << 18, PROT_READ | PROT_WRITE, MAP_PRIVATE | MAP_ANONYMOUS, -1, 0);
+                stack_t ss;
+                ss.ss_sp = alt;
+                ss.ss_size = 1 << 18;
+                ss.ss_flags = 0;
+                sigaltstack(&ss, nullptr);
+        }
         static bool done = false;
         if (done) return;
         done = true;
-        static uint8_t *alt = (uint8_t *) mmap(nullptr, 1 << 18, PROT_READ | PROT_WRITE, MAP_PRIVATE | MAP_ANONYMOUS, -1, 0);
-        stack_t ss;
-        ss.ss_sp = alt;
-        ss.ss_size = 1 << 18;
-        ss.ss_flags = 0;
-        sigaltstack(&ss, nullptr);
         struct sigaction sa;
         memset(&sa, 0, sizeof sa);
         sa.sa_sigaction = on_fault;
